@@ -175,7 +175,16 @@ class EncodeState:
                 else:
                     raw_value = internal_value
 
-            if raw_value.bit_length() > bit_length:
+            # determine the range of values which are representable
+            # using the given number of bits (one bit is needed for
+            # the sign)
+            max_value = (1 << max(bit_length - 1, 0)) - 1
+            if base_type_encoding in (None, Encoding.TWOC):
+                min_value = -max_value - 1
+            else:
+                min_value = -max_value
+
+            if internal_value < min_value or internal_value > max_value:
                 odxraise(
                     f"The value '{internal_value!r}' cannot be encoded using "
                     f"{bit_length} bits.", EncodeError)
